@@ -108,6 +108,7 @@ ApplyUpdate(m, o, e, step) ==
         f3 == IF f0 = Ok /\ ~e.same THEN F("update.argsMutated", step, "unchanged", "changed") ELSE Ok
         \* C07 (sign) for future-free, non-pastified monitors: the value at step k speaks about sample k
         f4 == IF f0 = Ok /\ m2.inst = m2.phi /\ ~HasFuture(m2.phi) /\ SignApplies(m2.phi) /\ e.ret # Bad
+                    /\ ~SatUndef(m2.phi, m2.hist, Len(m2.outOn), m2.cfg.S)
               THEN LET k == Len(m2.outOn)
                        st == Sat(m2.phi, m2.hist, k, m2.cfg.S)[k] IN
                    IF (e.ret > 0 /\ ~st) \/ (e.ret < 0 /\ st) THEN F("update.sign", step, st, e.ret) ELSE Ok
@@ -142,7 +143,7 @@ ApplyEvaluate(m, o, e, step) ==
       f3 == IF f0 = Ok /\ ~e.same THEN F("evaluate.argsMutated", step, "unchanged", "changed") ELSE Ok
       u  == Cardinality({k \in 1..N : m2.offOut[k] = Undef})
       \* C07 (sign), directly on the implementation's numbers and the Boolean semantics (not via Sig)
-      f4 == IF f0 = Ok /\ SignApplies(m2.phi) /\ Len(e.ret) = N
+      f4 == IF f0 = Ok /\ SignApplies(m2.phi) /\ Len(e.ret) = N /\ ~SatUndef(m2.phi, e.w, N, m2.cfg.S)
             THEN LET st == Sat(m2.phi, e.w, N, m2.cfg.S) IN
                  IF \E k \in 1..N : e.ret[k] # Bad /\ ((e.ret[k] > 0 /\ ~st[k]) \/ (e.ret[k] < 0 /\ st[k]))
                  THEN F("evaluate.sign", step, st, e.ret) ELSE Ok
